@@ -615,6 +615,11 @@ func (w *World) canon(root *ssa.Function, v ssa.Value) ssa.Value {
 			}
 			v = sv
 			continue
+		case *ssa.UnOp, *ssa.Field:
+			if rv := w.recordField(root, x); rv != nil {
+				v = rv
+				continue
+			}
 		}
 		return v
 	}
@@ -1067,4 +1072,219 @@ func (w *World) outcomeReturnsCmp(h *ssa.Function, idx int, op token.Token, k in
 		}
 	}
 	return rets
+}
+
+// recordField: v reads field F of a record that was built once - a struct (or &struct) literal of a named repository
+// type whose field F is written nowhere else in the repository - directly, through a by-value copy, or through the
+// parameter / receiver of a helper with one call site in Tree(root). Returns the value stored at construction (nil
+// when v is no such read). State that used to live in locals or parameters and was moved into a small carrier struct
+// (a session, a request, a draft) denotes the same values.
+func (w *World) recordField(root *ssa.Function, v ssa.Value) ssa.Value {
+	var base ssa.Value
+	var name string
+	switch x := v.(type) {
+	case *ssa.UnOp:
+		fa, ok := x.X.(*ssa.FieldAddr)
+		if x.Op != token.MUL || !ok {
+			return nil
+		}
+		base, name = fa.X, fieldName(fa.X.Type(), fa.Field)
+	case *ssa.Field:
+		base, name = x.X, fieldName(x.X.Type(), x.Field)
+	default:
+		return nil
+	}
+	if w.recBusy[v] {
+		return nil
+	}
+	if w.recBusy == nil {
+		w.recBusy = map[ssa.Value]bool{}
+	}
+	w.recBusy[v] = true
+	defer delete(w.recBusy, v)
+	var alloc *ssa.Alloc
+	for i := 0; i < 6 && base != nil && alloc == nil; i++ {
+		base = strip(base)
+		switch b := base.(type) {
+		case *ssa.Alloc:
+			if _, isStruct := b.Type().(*types.Pointer).Elem().Underlying().(*types.Struct); !isStruct {
+				return nil
+			}
+			// a cell holding one whole copy of a record (a by-value parameter spilled to a local)
+			if stores, ok := cellStores(b); ok && len(stores) == 1 && len(FieldStores(b.Parent(), b)) == 0 {
+				base = stores[0].Val
+				continue
+			}
+			alloc = b
+		case *ssa.UnOp:
+			if b.Op != token.MUL {
+				return nil
+			}
+			base = b.X // the whole record loaded from where it was built
+		case *ssa.Parameter:
+			u := w.resolveUp(root, b)
+			if u == ssa.Value(b) {
+				return nil
+			}
+			base = u
+		case *ssa.Call, *ssa.Extract:
+			u := w.canon(root, b)
+			if u == base {
+				return nil
+			}
+			base = u
+		default:
+			return nil
+		}
+	}
+	if alloc == nil {
+		return nil
+	}
+	named, _ := alloc.Type().(*types.Pointer).Elem().(*types.Named)
+	if named == nil || !w.InRepoType(named) {
+		return nil
+	}
+	vals := FieldStores(alloc.Parent(), alloc)[name]
+	if len(vals) != 1 {
+		return nil
+	}
+	if esc, done := w.recEsc[alloc]; done {
+		if esc {
+			return nil
+		}
+	} else {
+		if w.recEsc == nil {
+			w.recEsc = map[*ssa.Alloc]bool{}
+		}
+		esc := w.recordEscapes(alloc, 0, map[ssa.Value]bool{})
+		w.recEsc[alloc] = esc
+		if esc {
+			return nil
+		}
+	}
+	nw := 0
+	for _, a := range w.FieldAccesses(named, name) {
+		switch a.Kind {
+		case "write", "addr", "addrcall", "mapwrite", "mapdelete":
+			nw++
+		}
+	}
+	if nw != 1 {
+		return nil
+	}
+	return vals[0]
+}
+
+// recordEscapes: the pointer v to a record may reach code that is not analysed field by field (a non-repository
+// callee, an interface, a store into another object): its fields could then be written unseen.
+func (w *World) recordEscapes(v ssa.Value, depth int, seen map[ssa.Value]bool) bool {
+	if depth > 5 {
+		return true
+	}
+	if seen[v] {
+		return false
+	}
+	seen[v] = true
+	refs := v.Referrers()
+	if refs == nil {
+		return false
+	}
+	for _, r := range *refs {
+		switch x := r.(type) {
+		case *ssa.FieldAddr, *ssa.DebugRef:
+		case *ssa.UnOp:
+			if x.Op != token.MUL {
+				return true
+			}
+		case *ssa.Store:
+			if x.Addr == v {
+				return true // the whole record is overwritten
+			}
+			cell, ok := x.Addr.(*ssa.Alloc)
+			if !ok {
+				return true
+			}
+			// a local variable holding the pointer: every read of it
+			if crefs := cell.Referrers(); crefs != nil {
+				for _, cr := range *crefs {
+					switch y := cr.(type) {
+					case *ssa.Store, *ssa.DebugRef:
+					case *ssa.UnOp:
+						if w.recordEscapes(y, depth+1, seen) {
+							return true
+						}
+					case *ssa.MakeClosure:
+						return true
+					default:
+						return true
+					}
+				}
+			}
+		case ssa.CallInstruction:
+			cm := x.Common()
+			callee := cm.StaticCallee()
+			if callee == nil || !w.InRepo(callee) || callee.Blocks == nil {
+				return true
+			}
+			args := cm.Args
+			for i, a := range args {
+				if a != v {
+					continue
+				}
+				if i >= len(callee.Params) {
+					return true
+				}
+				if w.recordEscapes(callee.Params[i], depth+1, seen) {
+					return true
+				}
+			}
+			if cv, isVal := r.(ssa.Value); isVal && cm.Value == v {
+				_ = cv
+				return true
+			}
+		case *ssa.Return:
+			fn := x.Parent()
+			if fn.Parent() != nil || w.addressTaken(fn) {
+				return true
+			}
+			idx := -1
+			for i, res := range x.Results {
+				if res == v {
+					idx = i
+				}
+			}
+			for _, site := range w.callSites(fn) {
+				cv, ok := site.(*ssa.Call)
+				if !ok {
+					return true
+				}
+				var res ssa.Value = cv
+				if fn.Signature.Results().Len() > 1 {
+					res = extractOf(cv, idx)
+				}
+				if res != nil && w.recordEscapes(res, depth+1, seen) {
+					return true
+				}
+			}
+		case *ssa.MakeClosure:
+			cf, _ := x.Fn.(*ssa.Function)
+			if cf == nil {
+				return true
+			}
+			for i, b := range x.Bindings {
+				if b == v && i < len(cf.FreeVars) {
+					if w.recordEscapes(cf.FreeVars[i], depth+1, seen) {
+						return true
+					}
+				}
+			}
+		case *ssa.Phi:
+			if w.recordEscapes(x, depth+1, seen) {
+				return true
+			}
+		default:
+			return true
+		}
+	}
+	return false
 }
